@@ -32,13 +32,14 @@ FIXES = {"FixAbsent": "TRUE", "FixEqWrite": "TRUE", "FixTopLevel": "TRUE", "Shar
 
 
 # shadow variant per configuration: which single repair is undone in the shadow design
-SHADOW_OF = {"dyn": "absent", "dyn6": "absent", "trk": "absent", "memo": "absent", "outer": "absent",
+SHADOW_OF = {"rmgc": "absent", "dyn": "absent", "dyn6": "absent", "trk": "absent", "memo": "absent", "outer": "absent",
              "eqw": "eqwrite", "eqw5": "eqwrite",
              "gc1": "toplevel", "gc1v": "toplevel", "gc2": "toplevel", "gc2w": "toplevel", "gc3": "toplevel",
              "twin": "shared", "twin5": "shared", "twin6": "shared"}
 
 
-def cfg_text(nodes, vals, maxops, capacity, maxretain=1, emit="all", shadow=None):
+def cfg_text(nodes, vals, maxops, capacity, maxretain=1, emit="all", shadow=None, wkeys=("A", "B", "S")):
+    wk = ", ".join(f'"{k}"' for k in wkeys)
     nd = ", ".join(f'"{n}"' for n in nodes)
     vs = ", ".join(str(v) for v in vals)
     return f"""SPECIFICATION Spec
@@ -52,6 +53,7 @@ CONSTANTS
   FixTopLevel = {FIXES['FixTopLevel']}
   SharedKeys = {FIXES['SharedKeys']}
   Vals = {{{vs}}}
+  WriteKeys = {{{wk}}}
   MaxOps = {maxops}
   MaxRetain = {maxretain}
   Shadow = {"TRUE" if shadow else "FALSE"}
@@ -84,6 +86,11 @@ CONFIGS = {
     # C04
     "twin":   (["twin:a", "twin:b", "single"], [1], 4, 1, 1),
     "twin5":  (["twin:a", "twin:b", "single"], [1], 5, 1, 1),
+    # removal + unrelated write + collection (seeded change C01-gc-prunes-removal-epochs needs 6 operations)
+    "rmgc":   (["single", "byKey:0"], [1], 6, 1, 0),
+    # intern_ref: a MemoRef into another memoized value (the scenario of intern_ref's doc comment)
+    "iref":   (["tup", "refMaker"], [0, 1, 2], 6, 1, 1, ("A",)),
+    "iref3":  (["tup", "refMaker", "refUser"], [0, 1, 2], 6, 1, 1, ("A",)),
     # deeper / wider variants (thorough)
     "dyn6":   (["leaf:A", "leaf:B", "single", "top"], [0, 2], 6, 1, 1),
     "outer":  (["leaf:A", "leaf:B", "single", "top", "tsum", "outer"], [0, 2], 5, 2, 1),
@@ -92,13 +99,13 @@ CONFIGS = {
 }
 
 PLAN = {
-    ("C01", "quick"): ["dyn", "trk", "memo"],
+    ("C01", "quick"): ["dyn", "trk", "memo", "rmgc"],
     ("C02", "quick"): ["eqw", "dyn"],
-    ("C03", "quick"): ["gc1", "gc2"],
+    ("C03", "quick"): ["gc1", "gc2", "iref"],
     ("C04", "quick"): ["twin"],
-    ("C01", "thorough"): ["dyn", "trk", "memo", "eqw5", "dyn6", "outer", "gc3"],
-    ("C02", "thorough"): ["eqw5", "dyn", "trk", "dyn6", "outer", "gc1v"],
-    ("C03", "thorough"): ["gc1v", "gc2w", "memo", "gc3", "dyn6", "outer"],
+    ("C01", "thorough"): ["dyn", "trk", "memo", "rmgc", "eqw5", "dyn6", "outer", "gc3", "iref3"],
+    ("C02", "thorough"): ["eqw5", "dyn", "trk", "dyn6", "outer", "gc1v", "iref3"],
+    ("C03", "thorough"): ["gc1v", "gc2w", "memo", "gc3", "dyn6", "outer", "iref", "iref3"],
     ("C04", "thorough"): ["twin5", "twin6"],
 }
 SIM = {  # simulation walks: (nodes, vals, depth, capacity, maxretain, num)
@@ -115,13 +122,61 @@ def _prop_of(bad_id: str, prop: str, nodes) -> bool:
     return bad_id == prop
 
 
-def run_harness(binp: Path, program: dict, capacity: int, replays: list[dict], chk) -> list[dict]:
-    lines = [json.dumps({"program": program, "capacity": capacity})]
-    lines += [json.dumps({"ops": r["ops"], "id": i}) for i, r in enumerate(replays)]
-    p = vlib.run_bin(binp / "h_pico", input="\n".join(lines) + "\n", timeout=900)
-    out = [json.loads(l) for l in p.stdout.splitlines() if l.strip()]
-    if len(out) != len(replays):
-        raise ToolError(f"h_pico returned {len(out)} results for {len(replays)} replays\n{p.stderr[-2000:]}")
+def _feed(binp, lines, valgrind):
+    import subprocess
+    cmd = [str(binp / "h_pico"), "--markers"]
+    if valgrind:
+        cmd = ["valgrind", "-q", "--error-exitcode=9", "--exit-on-first-error=yes"] + cmd
+    try:
+        return subprocess.run(cmd, input="\n".join(lines) + "\n", stdout=subprocess.PIPE, stderr=subprocess.PIPE,
+                              text=True, timeout=3000)
+    except subprocess.TimeoutExpired:
+        raise ToolError("h_pico timed out")
+
+
+def run_harness(binp: Path, program: dict, capacity: int, replays: list[dict], chk, valgrind: bool = False) -> list[dict]:
+    """Runs every replay on the real crate.  A death of the process (signal, or the memory checker's
+    first error when `valgrind`) is attributed to the operation in progress: that replay is observed as
+    its prefix (re-run in a clean process) plus the operation with res {"t":"ub"}; the rest continue."""
+    head = json.dumps({"program": program, "capacity": capacity})
+    results: dict[int, dict] = {}
+    todo = list(range(len(replays)))
+    while todo:
+        lines = [head] + [json.dumps({"ops": replays[i]["ops"], "id": i}) for i in todo]
+        p = _feed(binp, lines, valgrind)
+        cur = None
+        for l in p.stdout.splitlines():
+            if not l.strip():
+                continue
+            o = json.loads(l)
+            if "begin" in o:
+                cur = (o["begin"], o["op"])
+                continue
+            results[o["id"]] = o
+            cur = None
+        if p.returncode == 0 and cur is None:
+            break
+        if p.returncode == 3 or cur is None:
+            raise ToolError(f"h_pico failed rc={p.returncode}: {p.stderr[-1500:]}")
+        rid, opi = cur
+        ops = replays[rid]["ops"]
+        prefix = []
+        if opi > 0:
+            q = _feed(binp, [head, json.dumps({"ops": ops[:opi], "id": rid})], False)
+            outs = [json.loads(l) for l in q.stdout.splitlines() if l.strip() and "begin" not in json.loads(l)]
+            if q.returncode != 0 or not outs:
+                raise ToolError(f"could not re-run the prefix of a crashed replay: rc={q.returncode}")
+            prefix = outs[0]["ops"]
+        bad_op = {k: v for k, v in ops[opi].items()}
+        bad_op["res"] = {"t": "ub"}
+        if bad_op["op"] in ("call", "retain"):
+            bad_op["evs"] = []
+        bad_op["ub_report"] = (p.stderr[-600:] if valgrind else f"process terminated by signal {-p.returncode}").encode("ascii", "replace").decode()
+        results[rid] = {"id": rid, "ops": prefix + [bad_op]}
+        todo = todo[todo.index(rid) + 1:]
+    out = [results.get(i) for i in range(len(replays))]
+    if any(o is None for o in out):
+        raise ToolError("h_pico returned fewer results than replays")
     return out
 
 
@@ -163,10 +218,18 @@ POSTCONDITION AllConsumed
 
 
 def strip_obs(ops):
-    return [{k: v for k, v in o.items() if k not in ("evs", "res", "panic_msg")} for o in ops]
+    return [{k: v for k, v in o.items() if k not in ("evs", "res", "panic_msg", "ub_report")} for o in ops]
 
 
 def signature(prop, ops):
+    last = ops[-1] if ops else {}
+    kind = last.get("res", {}).get("t")
+    if last.get("op") == "lookup":
+        # reading a MemoRef the user holds: identified by the node and by what went wrong
+        return f"{prop}:lookup({last.get('n', '')}):" + ("invalid-memory-access" if kind == "ub" else "panic" if kind == "panic" else "wrong-value")
+    if kind == "ub":
+        # an invalid memory access is identified by the operation that performs it
+        return f"{prop}:ub:{last['op']}({last.get('n', '')})"
     return prop + ":" + ",".join(o["op"] + ("(" + str(o.get("n", o.get("k", ""))) + ")" if ("n" in o or "k" in o) else "") for o in ops)
 
 
@@ -198,15 +261,16 @@ def run(chk: vlib.Check):
             ops = traces_by_id[tid]
             # `at` counts the reset record: records 1..at of this trace => ops[:at-?]; recompute from trace-local index
             cut = ops[: min(len(ops), at)]
-            sig = signature(prop, strip_obs(cut))
+            sig = signature(prop, [dict(o) for o in strip_obs(cut[:-1])] + [{k: v for k, v in cut[-1].items() if k not in ("evs", "panic_msg", "ub_report")}])
             if sig not in violations or len(cut) < len(violations[sig][0]):
                 violations[sig] = (cut, capacity, program, origin)
 
     # ---- model checking + edge-coverage replays -------------------------------------------------
     for name in PLAN[(prop, tier)]:
-        nodes, vals, maxops, capacity, maxretain = CONFIGS[name]
+        nodes, vals, maxops, capacity, maxretain = CONFIGS[name][:5]
+        wkeys = CONFIGS[name][5] if len(CONFIGS[name]) > 5 else ("A", "B", "S")
         cfg = chk.work / f"MC_{name}.cfg"
-        cfg.write_text(cfg_text(nodes, vals, maxops, capacity, maxretain, emit="all", shadow=SHADOW_OF.get(name)))
+        cfg.write_text(cfg_text(nodes, vals, maxops, capacity, maxretain, emit="all", shadow=SHADOW_OF.get(name), wkeys=wkeys))
         # (no -coverage here: TLC's coverage bookkeeping runs out of memory on the recursive interpreter;
         #  non-vacuity is measured below from the operations that actually occur in the emitted transitions)
         r = vlib.tlc(SP / "MCPico.tla", cfg, workers=6, timeout=1500, heap="8g", seed=chk.seed)
@@ -236,6 +300,8 @@ def run(chk: vlib.Check):
         for i, (rp, ob) in enumerate(zip(replays, obs)):
             last = ob["ops"][-1] if ob["ops"] else {}
             pred = rp["pred"]
+            if last.get("res", {}).get("t") == "ub":
+                chk.cov["ub_observed_native"] = chk.cov.get("ub_observed_native", 0) + 1
             same = (len(ob["ops"]) == len(rp["ops"]) and last.get("evs", []) == pred["evs"]
                     and last.get("res", {"t": "val", "v": 0}) == pred["res"]) if last.get("op") in ("call", "retain", "gc", "lookup") \
                 else len(ob["ops"]) == len(rp["ops"])
@@ -254,6 +320,19 @@ def run(chk: vlib.Check):
             traces_by_id[i] = obs[i]["ops"]
         bads = validate_traces(chk, [(i, obs[i]["ops"]) for i in to_validate], capacity, f"mc-{name}")
         judge(bads, traces_by_id, capacity, program, nodes, f"mc-{name}")
+        if any(n in ("refMaker", "refUser") for n in nodes):
+            # C03, "no history reads freed or uninitialised memory": the histories that look something up
+            # after a collection run again under valgrind memcheck (first error aborts and is attributed)
+            cand = [i for i, rp in enumerate(replays)
+                    if any(o["op"] == "gc" for o in rp["ops"][:-1]) and rp["ops"][-1]["op"] in ("lookup", "call", "retain")]
+            rng.shuffle(cand)
+            cand = sorted(cand[: (2500 if tier == "quick" else 15000)])
+            vobs = run_harness(binp, program, capacity, [replays[i] for i in cand], chk, valgrind=True)
+            chk.cov["valgrind_replays"] = chk.cov.get("valgrind_replays", 0) + len(cand)
+            ub = [(cand[j], o) for j, o in enumerate(vobs) if o["ops"] and o["ops"][-1].get("res", {}).get("t") == "ub"]
+            tb = {i: o["ops"] for i, o in ub}
+            vb = validate_traces(chk, [(i, o["ops"]) for i, o in ub], capacity, f"vg-{name}")
+            judge(vb, tb, capacity, program, nodes, f"valgrind-{name}")
         if len(chk.cov["samples"]) < 2:
             chk.sample({"kind": "replay (TLC transition -> real crate)", "config": name, "history": obs[pool[0] if pool else 0]["ops"]})
 
